@@ -82,12 +82,14 @@ def run(tier, seed):
         N, lines, fam, plan = histories.c19_history(s)
         hist.append((f"{fam}-{s}", N, lines, fam, plan))
     mismatches, violations, nontrivial = [], [], set()
-    for prof in ("debug", "release"):
+    CHUNK = 1500      # dumps after every op: never hold more than one chunk of outputs
+    for prof, chunk in [(p_, hist[i:i + CHUNK]) for p_ in ("debug", "release") for i in range(0, len(hist), CHUNK)]:
         dbg = 1 if prof == "debug" else 0
-        texts = [(hid, ec.history_text(hid, lines, max_height=N, debug=dbg, dump=1)) for hid, N, lines, fam, plan in hist]
+        texts = [(hid, ec.history_text(hid, lines, max_height=N, debug=dbg, dump=1)) for hid, N, lines, fam, plan in chunk]
         mo = ec.run_all(model, texts)
         io = ec.run_all(impl[prof], texts)
-        for hid, N, lines, fam, plan in hist:
+        del texts
+        for hid, N, lines, fam, plan in chunk:
             ml, il = ec.normalise(mo.get(hid, [])), ec.normalise(io.get(hid, []))
             d = ec.first_diff(ml, il)
             if d:
